@@ -1,104 +1,153 @@
 (* C14 - Id allocator / deposit box: live ids unique, one taker wins, stale ids never match.
-   Only statements; proofs are `exact <lemma of ID/IDProofs.v>`.
+   Only statements; proofs are `exact <lemma of ID/IDProofs.v, ID/IDWrap.v, ID/IDLitmus.v>`.
 
-   Reach c progs s = "s is reachable from the initial state of the client programs `progs` (one list of
-   allocate / deallocate / emplace / take_released / finish_released calls per thread) under SOME schedule", one
-   step = one atomic operation of id_allocator.hpp / deposit_box.h - so every theorem below is quantified over all
-   programs, all thread counts and all interleavings, including a pop racing with pop-push-pop of the same value.
-   Thread ids: a thread is born by its first allocate (thread_local constructor) and dies by its deallocate
-   (destructor); all birth/death orders are schedules of programs [OAlloc; ...; OFree 0].
+   Executions.  `run st (step c) (init c progs) sch` is the execution of the client programs `progs` (one list of
+   allocate / deallocate / emplace / take_released / finish_released calls per thread) under the schedule `sch`, one
+   step = one atomic operation of id_allocator.hpp / deposit_box.h - every theorem is quantified over all programs, all
+   thread counts and all schedules, including a pop racing with pop-push-pop of the same value.  Thread ids: a thread is
+   born by its first allocate (thread_local constructor) and dies by its deallocate (destructor); all birth/death orders
+   are schedules of programs [OAlloc; ...; OFree 0].
+   c = (tail, vmod): tail = FREE_LIST_TAIL, vmod = modulus of the version arithmetic: 2^16 for IdAllocator<uint16_t>
+   (ThreadId), 2^32 for IdAllocator<uint32_t> / the deposit slots; vmod = 0 stands for unbounded versions.
 
-   Hypotheses, and what `_partial` means here.  c = (tail, vmod): tail = FREE_LIST_TAIL, vmod = modulus of the
-   version arithmetic.  Every `_partial` theorem assumes
-     vmod c = 0          versions do not wrap, and
-     nv <= ACTIVE_FLAG   fewer values were minted than the value type can name besides its two sentinels
-                         (65534 for ThreadId - the documented limit).
-   With the real 16-bit version the FULL statement (no value has two owners, for all interleavings) is FALSE:
-   c14_unique_owner_refuted gives the programs and the schedule (an allocate stalled between its loads and its CAS
-   across exactly 65536 pushes); the harness replays exactly this schedule on the real IdAllocator<uint16_t> on every
-   run (known finding version-wrap-aba-u16).  What is missing between the two: the conditional theorem for the wrapped
-   model ("if fewer than vmod pushes happen between any allocate's head load and its CAS then ...") is not proved; the
-   unbounded-version theorems are its instance for windows that never wrap.  For the deposit box (32-bit slot
-   versions, 2^32 reuses of one slot needed) the wrap is likewise excluded by vmod c = 0 and not refuted by witness.
+   Hypotheses.
+     nv <= ACTIVE_FLAG         fewer values were minted than the value type can name besides its two sentinels (65534
+                               for ThreadId - the documented limit).
+     no_wrap_in_window c progs sch   (ID/IDWrap.v) either vmod = 0, or along the execution (a) whenever a CAS on the
+                               free-list head is pending, fewer than vmod pushes (successful deallocate CASes) happened
+                               since the head load it compares against, and (b) whenever take_released is about to run on
+                               an id, the slot's version is fewer than vmod ahead of the id's version.  Both are read off
+                               the ghost execution `ghost_run c progs sch`: the same programs and schedule with unbounded
+                               versions, whose head version IS the number of pushes so far and whose slot / id versions
+                               are the unwrapped ones (windowedb evaluates the predicate; it is decidable).
+                               (a) is asked for the CAS of deallocate too - only the proof technique (step-for-step
+                               simulation) needs that: a push that succeeds after a full wrap installs a correct link.
+                               (b) in the property's words: fewer than 2^32 deallocations of the box's allocator between
+                               the pop that issued the id and the take (slot versions are copies of the allocator's
+                               head version, so it is the allocator's push count that matters, not the slot's own).
+   Under these hypotheses the real-width execution is step for step the image of the ghost execution
+   (c14_wrapped_run_is_image) and all statements hold for vmod = 2^16 / 2^32.  The boundary is sharp:
+   c14_unique_owner_refuted is the execution with EXACTLY vmod = 65536 pushes inside one allocate window
+   (c14_refuted_witness_is_outside_the_window), with 65535 the hypothesis holds (c14_window_example); the harness replays
+   the witness on the real IdAllocator<uint16_t> on every run (known finding version-wrap-aba-u16).
+   Publication (release/acquire half, view machine of coq/WM/RA.v, orders regenerated from the source): see the end.
    Not modelled: for_each's grouping into ranges, ConcurrentVector growth, _next_value overflow. *)
 From Coq Require Import ZArith List Bool.
-Require Import Verif.Gen.Gen_id_allocator Verif.Conc.Machine Verif.ID.IDModel Verif.ID.IDProofs.
+Require Import Verif.Gen.Gen_id_allocator Verif.Conc.Machine Verif.ID.IDModel Verif.ID.IDProofs Verif.ID.IDWrap.
 Import ListNotations.
 Local Open Scope Z_scope.
 
+(* the real-width execution is the image (every version reduced mod vmod) of the ghost execution *)
+Theorem c14_wrapped_run_is_image : forall c progs sch, no_wrap_in_window c progs sch ->
+  let sw := run st (step c) (init c progs) sch in
+  nv (sh sw) <= ACTc c ->
+  let su := ghost_run c progs sch in
+  Reach (unb c) progs su /\ nv (sh su) <= ACTc (unb c) /\ sw = Wst c su /\ (0 < vmod c -> win_stb c su = true).
+Proof. exact wrapped_run_is_image. Qed.
+Print Assumptions c14_wrapped_run_is_image.
+
 (* No value has two owners: the values on the free list, kept by a thread, taken from the box, sitting in the box or
-   in transit inside an allocate/deallocate/emplace call are pairwise distinct - in every reachable state. *)
-Theorem c14_unique_owner_partial : forall c progs s, vmod c = 0 -> Reach c progs s -> nv (sh s) <= ACTc c ->
-  NoDup (fl (sh s) ++ owners s).
-Proof. exact id_unique_owner. Qed.
-Print Assumptions c14_unique_owner_partial.
+   in transit inside an allocate/deallocate/emplace call are pairwise distinct. *)
+Theorem c14_unique_owner : forall c progs sch, no_wrap_in_window c progs sch ->
+  let s := run st (step c) (init c progs) sch in
+  nv (sh s) <= ACTc c -> NoDup (fl (sh s) ++ owners s).
+Proof. exact idw_unique_owner. Qed.
+Print Assumptions c14_unique_owner.
 
 (* ... in particular the ids clients hold at any moment are distinct and none of them is on the free list *)
-Theorem c14_held_ids_unique_partial : forall c progs s, vmod c = 0 -> Reach c progs s -> nv (sh s) <= ACTc c ->
-  NoDup (held_values s) /\ (forall v, In v (held_values s) -> ~ In v (fl (sh s))).
-Proof. exact id_held_unique. Qed.
-Print Assumptions c14_held_ids_unique_partial.
+Theorem c14_held_ids_unique : forall c progs sch, no_wrap_in_window c progs sch ->
+  let s := run st (step c) (init c progs) sch in
+  nv (sh s) <= ACTc c -> NoDup (held_values s) /\ (forall v, In v (held_values s) -> ~ In v (fl (sh s))).
+Proof. exact idw_held_unique. Qed.
+Print Assumptions c14_held_ids_unique.
 
 (* ABA: whenever a thread's pop CAS is about to succeed (head value AND version equal what it loaded), the link it
    loaded earlier is the current link of the current top - whatever pops and pushes happened in between *)
-Theorem c14_pop_cas_never_stale_partial : forall c progs s t th cv ck nx, vmod c = 0 -> Reach c progs s ->
-  nv (sh s) <= ACTc c -> nth_error (threads s) t = Some th -> tpc th = ACas cv ck nx ->
+Theorem c14_pop_cas_never_stale : forall c progs sch, no_wrap_in_window c progs sch ->
+  let s := run st (step c) (init c progs) sch in
+  nv (sh s) <= ACTc c ->
+  forall t th cv ck nx, nth_error (threads s) t = Some th -> tpc th = ACas cv ck nx ->
   hv (sh s) = cv -> hk (sh s) = ck -> getz (nxt (sh s)) cv = nx /\ exists r, fl (sh s) = cv :: r.
-Proof. exact id_pop_cas_current. Qed.
-Print Assumptions c14_pop_cas_never_stale_partial.
+Proof. exact idw_pop_cas_current. Qed.
+Print Assumptions c14_pop_cas_never_stale.
 
-(* the same statement for the real 16-bit version is false *)
+(* without the window hypothesis the statement is false for the real 16-bit version ... *)
 Theorem c14_unique_owner_refuted :
   exists progs sch, let s := run st (step c16) (init c16 progs) sch in
     nv (sh s) <= ACTc c16 /\ ~ NoDup (held_values s).
 Proof. exact id_unique_owner_refuted. Qed.
 Print Assumptions c14_unique_owner_refuted.
+(* ... and the witness is exactly the boundary: 65536 pushes inside one window violate the hypothesis, 65535 do not *)
+Theorem c14_refuted_witness_is_outside_the_window :
+  windowedb c16 (init (unb c16) (wrap_progs (Z.to_nat 65535))) (wrap_sched (Z.to_nat 65535)) = false.
+Proof. exact wrap_witness_outside_window. Qed.
+Example c14_window_example : no_wrap_in_window c16 (wrap_progs (Z.to_nat 65534)) (wrap_sched (Z.to_nat 65534)).
+Proof. exact wrap_control_inside_window. Qed.
 
 (* an allocate that runs alone while the free list is not empty returns its top and mints nothing *)
-Theorem c14_reuse_when_quiet_partial : forall c progs s t th x rest r, vmod c = 0 -> Reach c progs s ->
-  nv (sh s) <= ACTc c -> nth_error (threads s) t = Some th -> tpc th = Idle -> prog th = OAlloc :: r ->
+Theorem c14_reuse_when_quiet : forall c progs sch, no_wrap_in_window c progs sch ->
+  let s := run st (step c) (init c progs) sch in
+  nv (sh s) <= ACTc c ->
+  forall t th x rest r, nth_error (threads s) t = Some th -> tpc th = Idle -> prog th = OAlloc :: r ->
   fl (sh s) = x :: rest ->
   let s' := run st (step c) s [t; t; t; t] in
   nv (sh s') = nv (sh s) /\ fl (sh s') = rest /\
   exists th', nth_error (threads s') t = Some th' /\ tpc th' = Idle /\ prog th' = r /\
               held th' = (x, hk (sh s)) :: held th /\ results th' = RId x (hk (sh s)) :: results th.
-Proof. exact id_reuse_when_quiet. Qed.
-Print Assumptions c14_reuse_when_quiet_partial.
+Proof. exact idw_reuse_when_quiet. Qed.
+Print Assumptions c14_reuse_when_quiet.
 
 (* for_each at quiescence (no call in progress) reports exactly the values clients hold *)
-Theorem c14_for_each_exact_partial : forall c progs s, vmod c = 0 -> Reach c progs s -> nv (sh s) <= ACTc c ->
-  quiescent s = true -> forall v, In v (live c (sh s)) <-> In v (held_values s).
-Proof. exact id_for_each_exact. Qed.
-Print Assumptions c14_for_each_exact_partial.
+Theorem c14_for_each_exact : forall c progs sch, no_wrap_in_window c progs sch ->
+  let s := run st (step c) (init c progs) sch in
+  nv (sh s) <= ACTc c -> quiescent s = true -> forall v, In v (live c (sh s)) <-> In v (held_values s).
+Proof. exact idw_for_each_exact. Qed.
+Print Assumptions c14_for_each_exact.
 
 (* thread ids: two different threads never own the same value, whatever the order of births and deaths *)
-Theorem c14_thread_ids_partial : forall c progs s t1 t2 th1 th2 v, vmod c = 0 -> Reach c progs s ->
-  nv (sh s) <= ACTc c -> t1 <> t2 -> nth_error (threads s) t1 = Some th1 -> nth_error (threads s) t2 = Some th2 ->
+Theorem c14_thread_ids : forall c progs sch, no_wrap_in_window c progs sch ->
+  let s := run st (step c) (init c progs) sch in
+  nv (sh s) <= ACTc c ->
+  forall t1 t2 th1 th2 v, t1 <> t2 -> nth_error (threads s) t1 = Some th1 -> nth_error (threads s) t2 = Some th2 ->
   In v (owned_thread th1) -> In v (owned_thread th2) -> False.
-Proof. exact id_threads_disjoint. Qed.
-Print Assumptions c14_thread_ids_partial.
+Proof. exact idw_threads_disjoint. Qed.
+Print Assumptions c14_thread_ids.
 
-(* deposit box: no id is won twice (wins records every successful take), and no take of an issued id ever failed
-   while nobody had won it (miss) - so among any number of takes of one id exactly one obtains the item *)
-Theorem c14_one_taker_partial : forall c progs s, vmod c = 0 -> Reach c progs s -> nv (sh s) <= ACTc c ->
-  NoDup (wins (sh s)) /\ miss (sh s) = false.
-Proof. exact id_one_taker. Qed.
-Print Assumptions c14_one_taker_partial.
+(* deposit box: read with their unwrapped versions (one per emplace round) the won ids are pairwise distinct - no
+   emplace round has two winners - and no take of an issued id ever failed while nobody had won it (miss): among any
+   number of takes of one id exactly one obtains the item *)
+Theorem c14_one_taker : forall c progs sch, no_wrap_in_window c progs sch ->
+  let s := run st (step c) (init c progs) sch in
+  nv (sh s) <= ACTc c ->
+  exists wu, wu = wins (sh (ghost_run c progs sch)) /\ wins (sh s) = map (Wid c) wu /\ NoDup wu /\ miss (sh s) = false.
+Proof. exact idw_one_taker. Qed.
+Print Assumptions c14_one_taker.
 
 (* every id handed out by emplace is either already won or still in the box with its slot version matching *)
-Theorem c14_issued_id_matches_until_taken_partial : forall c progs s i, vmod c = 0 -> Reach c progs s ->
-  nv (sh s) <= ACTc c -> In i (ids (sh s)) ->
-  In i (wins (sh s)) \/ (In i (boxed (sh s)) /\ getz (sver (sh s)) (fst i) = snd i).
-Proof. exact id_issued_won_or_boxed. Qed.
-Print Assumptions c14_issued_id_matches_until_taken_partial.
+Theorem c14_issued_id_matches_until_taken : forall c progs sch, no_wrap_in_window c progs sch ->
+  let s := run st (step c) (init c progs) sch in
+  nv (sh s) <= ACTc c ->
+  forall i, In i (ids (sh s)) -> In i (wins (sh s)) \/ (In i (boxed (sh s)) /\ getz (sver (sh s)) (fst i) = snd i).
+Proof. exact idw_issued_won_or_boxed. Qed.
+Print Assumptions c14_issued_id_matches_until_taken.
 
-(* an id whose item was taken never matches its slot again, however the execution continues and however often the
-   slot is reused: the slot version stays strictly above the id's version *)
-Theorem c14_stale_never_matches_partial : forall c progs s v k sch, vmod c = 0 -> Reach c progs s ->
+(* an id whose item was taken (unwrapped version ku) does not match its slot - in any execution, however long it
+   continues after the take and however often the slot is reused - as long as the slot's unwrapped version is fewer than
+   vmod = 2^32 ahead of ku; for unbounded versions: never *)
+Theorem c14_stale_never_matches : forall c progs sch, no_wrap_in_window c progs sch ->
+  let s := run st (step c) (init c progs) sch in
+  nv (sh s) <= ACTc c ->
+  forall v ku, In (v, ku) (wins (sh (ghost_run c progs sch))) ->
+  (vmod c = 0 \/ getz (sver (sh (ghost_run c progs sch))) v - ku < vmod c) ->
+  getz (sver (sh s)) v <> wrapk c ku.
+Proof. exact idw_stale_never_matches. Qed.
+Print Assumptions c14_stale_never_matches.
+(* the unbounded statement along every continuation (the slot version only grows) *)
+Theorem c14_stale_never_matches_unbounded : forall c progs s v k sch, vmod c = 0 -> Reach c progs s ->
   In (v, k) (wins (sh s)) ->
   let s2 := run st (step c) s sch in nv (sh s2) <= ACTc c -> k < getz (sver (sh s2)) v.
 Proof. exact id_stale_never_matches. Qed.
-Print Assumptions c14_stale_never_matches_partial.
+Print Assumptions c14_stale_never_matches_unbounded.
 
 (* the memory orders the argument relies on are the ones in the source (regenerated site tables): head loads
    acquire, pop CAS acq_rel, push CAS release/acquire, take is a strong CAS *)
@@ -119,3 +168,63 @@ Example c14_reused_slot_example : exists s, Reach cU ex_box s /\ nv (sh s) <= AC
 Proof. exact id_example_box. Qed.
 Example c14_wrap_needs_exactly_65536 : nodupb (held_values (wrap_final (Z.to_nat 65534))) = true.
 Proof. exact id_wrap_control. Qed.
+
+(* ---- publication: the release/acquire half on the explicit view machine of coq/WM/RA.v, memory orders regenerated
+   from id_allocator.hpp / deposit_box.h (ID/IDLitmusDefs.v has the skeletons).  For EVERY execution of the view machine
+   (any schedule, any message a relaxed/acquire load may legally read): *)
+Require Import Verif.Base.Atomics Verif.WM.RA Verif.WM.RALitmus Verif.ID.IDLitmusDefs Verif.ID.IDLitmus.
+
+(* an allocate that sees a value on top through its (acquire) head load reads the link that value's deallocate stored
+   (relaxed store, published by the release CAS) *)
+Theorem c14_link_publication : forall sch, RA.final (RA.run (RA.init id_link_src) sch) = true ->
+  id_link_bad (RA.result (RA.run (RA.init id_link_src) sch)) = false.
+Proof. exact id_link_all. Qed.
+Print Assumptions c14_link_publication.
+(* ... also when it learns the head through the reload of a failed pop CAS *)
+Theorem c14_link_publication_after_failed_cas : forall sch, RA.final (RA.run (RA.init id_link_casfail_src) sch) = true ->
+  id_link_bad (RA.result (RA.run (RA.init id_link_casfail_src) sch)) = false.
+Proof. exact id_link_casfail_all. Qed.
+Print Assumptions c14_link_publication_after_failed_cas.
+(* ... and through a second push and a pop in between (release sequence through the read-modify-writes on the head) *)
+Theorem c14_link_publication_chain : forall sch, RA.final (RA.run (RA.init id_chain_src) sch) = true ->
+  id_chain_bad (RA.result (RA.run (RA.init id_chain_src) sch)) = false.
+Proof. exact id_chain_all. Qed.
+Print Assumptions c14_link_publication_chain.
+(* whatever the previous owner of a value did to the resource it names happens-before what the next owner does: no
+   data race across a reuse (thread-local slots, deposit items between finish_released and the next emplace) *)
+Theorem c14_handover_publication : forall sch, RA.final (RA.run (RA.init id_handover_src) sch) = true ->
+  id_handover_bad (RA.result (RA.run (RA.init id_handover_src) sch)) = false.
+Proof. exact id_handover_all. Qed.
+Print Assumptions c14_handover_publication.
+Theorem c14_handover_publication_after_failed_cas : forall sch,
+  RA.final (RA.run (RA.init id_handover_casfail_src) sch) = true ->
+  id_handover_bad (RA.result (RA.run (RA.init id_handover_casfail_src) sch)) = false.
+Proof. exact id_handover_casfail_all. Qed.
+Print Assumptions c14_handover_publication_after_failed_cas.
+(* deposit box: emplace's version store and take's CAS are relaxed in the source - the item is published by the channel
+   through which the client hands the id to the takers; if that channel is release/acquire, exactly one of two takers
+   gets the item emplaced, without a data race *)
+Theorem c14_deposit_item_publication : forall sch, RA.final (RA.run (RA.init box_take_src) sch) = true ->
+  box_take_bad (RA.result (RA.run (RA.init box_take_src) sch)) = false.
+Proof. exact box_take_all. Qed.
+Print Assumptions c14_deposit_item_publication.
+
+(* which orders carry the obligations, and what goes wrong without them (the execution is printed by the check's search) *)
+Theorem c14_link_publication_orders : forall o_push o_head,
+  id_link_safe Relaxed o_push o_head Relaxed = has_release o_push && has_acquire o_head.
+Proof. exact id_link_safe_iff. Qed.
+Theorem c14_link_publication_relaxed_push_refuted :
+  exists sch, RA.final (RA.run (RA.init (id_link_prog Relaxed Relaxed Acquire Relaxed)) sch) = true /\
+              id_link_bad (RA.result (RA.run (RA.init (id_link_prog Relaxed Relaxed Acquire Relaxed)) sch)) = true.
+Proof. exact id_link_relaxed_push_witness. Qed.
+Theorem c14_handover_relaxed_head_load_refuted :
+  exists sch, RA.final (RA.run (RA.init (id_handover_prog Relaxed Release Relaxed)) sch) = true /\
+              id_handover_bad (RA.result (RA.run (RA.init (id_handover_prog Relaxed Release Relaxed)) sch)) = true.
+Proof. exact id_handover_relaxed_load_witness. Qed.
+Theorem c14_deposit_item_needs_client_channel : forall o_cst o_cld,
+  box_take_safe o_emplace_version o_take_cas o_cst o_cld = has_release o_cst && has_acquire o_cld.
+Proof. exact box_take_safe_iff. Qed.
+Theorem c14_deposit_item_relaxed_channel_refuted :
+  exists sch, RA.final (RA.run (RA.init (box_take_prog Relaxed Relaxed Relaxed Relaxed)) sch) = true /\
+              box_take_bad (RA.result (RA.run (RA.init (box_take_prog Relaxed Relaxed Relaxed Relaxed)) sch)) = true.
+Proof. exact box_take_relaxed_channel_witness. Qed.
